@@ -908,6 +908,46 @@ pub fn gen_c08(g: &mut Gen) {
     }
     g.count("fixed-boundary-tokens");
 
+    // 1b. exhaustive (not random): for EVERY token kind / boundary payload above, the inputs with a
+    // stray trailing byte, every odd length, every cut inside the token, streamed through the reader
+    // (a reader that takes a short trailing window for end of input returns Ok(None) here where the
+    // lexer says Eof; the stream == lexer oracle and the model diff both see it)
+    let strays = [0x00u8, 0x01, 0x03, 0x04, 0x0c, 0xff];
+    let mut n_trailing = 0usize;
+    for t in &fixed {
+        let b = encode(std::slice::from_ref(t));
+        let mut inputs: Vec<Vec<u8>> = vec![];
+        let ks: Vec<usize> = if b.len() <= 40 { (1..b.len()).collect() } else { vec![1, 2, 3, 4, 5, b.len() / 2, b.len() - 2, b.len() - 1] };
+        for k in ks { inputs.push(b[..k].to_vec()); }
+        for s in strays {
+            let mut d = b.clone(); d.push(s); inputs.push(d);
+            let mut d = encode(&[OTok::Equal]); d.extend_from_slice(&b); d.push(s); inputs.push(d);
+        }
+        let mut d = b.clone(); d.extend_from_slice(&b); d.push(0x2d); inputs.push(d);
+        for d in inputs {
+            let h = hex(&d);
+            let m = min_cap(&d);
+            let ntoks = lex_run(&d).toks.len();
+            for cap in [m, m + 3] {
+                let mut scheds = vec!["-".to_string(), "R1".to_string()];
+                if d.len() >= 2 { scheds.push(format!("{}", d.len() - 1)); scheds.push(format!("{},1", d.len() - 1)); }
+                for sw in scheds { g.emit(format!("bstream {} {} {}", cap, sw, h)); n_trailing += 1; }
+            }
+            g.emit(format!("bcalls {} R1 {} {}", m, h, ntoks + 3));
+            g.emit(format!("bread {} R2 {}", m + 1, h));
+            g.emit(format!("bstream S - {}", h));
+            if d.len() <= 7 { for sc in sched::compositions(d.len()) { g.emit(format!("bstream {} {} {}", m, sched::show(&sc), h)); } }
+        }
+    }
+    // every single byte on its own, and after one complete token
+    for v in 0..=255u8 {
+        for cap in [1usize, 2, 5] { g.emit(format!("bstream {} R1 {}", cap, hex(&[v]))); g.emit(format!("bstream {} - {}", cap, hex(&[v]))); }
+        g.emit(format!("bstream 6 R1 0c0001000000{}", hex(&[v])));
+        g.emit(format!("bstream 2 1,1,1 0300{}", hex(&[v])));
+    }
+    let _ = n_trailing;
+    g.count("trailing-byte-exhaustive");
+
     // 2. all 65536 lexeme ids followed by a payload-looking tail
     let tail = [0x01u8, 0x00, 0x00, 0x00, 0x03, 0x00, 0x04, 0x00, 0x05, 0x00];
     for id in 0..=u16::MAX {
